@@ -41,6 +41,9 @@ def run(tier):
         {"proto": "taproot-sign", "n": 3, "t": 2, "kinds": ["equiv"], "scheds": 2, "cross": True},
         {"proto": "frost-keygen", "n": 4, "t": 2, "kinds": ["equiv"], "scheds": 2, "cross": True},
         {"proto": "cmp-sign", "n": 3, "t": 2, "kinds": ["equiv"], "limit": 4 if quick else 36, "scheds": 1},
+        # presigning with the message (seven rounds, then the signing round): the longest chain of broadcast rounds in the library
+        # (quick: one equivocator, rotating with the seed - every round and every assignment of the others)
+        {"proto": "cmp-presign-full", "n": 3, "t": 2, "kinds": ["equiv"], "scheds": 1, "only_byz": "abc"[sd % 3] if quick else None},
     ]
     if not quick:
         plan += [
